@@ -113,7 +113,7 @@ bool NaorPinkasEOTP::CheckGroup
 		// Compute $k := (p - 1) / q$
 		mpz_set(k, p);
 		mpz_sub_ui(k, k, 1L);
-		if (!mpz_cmp_ui(q, 0L))
+		if (mpz_cmp_ui(q, 0L) <= 0)
 			throw false;
 		mpz_div(k, k, q);
 		
